@@ -19,7 +19,12 @@ model's queue follows the implementation's order inside groups of equal
 probability (pop_follow, proved to meet the heap contract for every order); items
 are matched by (base-structure line, pt, base_prob, prob) - the line is followed
 in the implementation by object identity (see run_session), because two
-identical grammar.txt lines give items that are otherwise indistinguishable."""
+identical grammar.txt lines give items that are otherwise indistinguishable.
+A last stage ("named sessions", below) runs the real pcfg_guesser.main() of a scratch
+copy of the code tree (harness/main_driver.py): two or three sessions of one ruleset
+under session names of one confusable family, each quit at places of its own inside
+Markov levels and resumed with --load while the other sessions are interrupted in
+between; each session by itself must emit the uninterrupted run piece by piece."""
 import json
 import os
 import pickle
@@ -40,6 +45,9 @@ TRUSTED = ["pickle.dump/load is the identity on int, bool, list of [str,int,int]
            "the key-press thread is replaced by an inert stand-in that never reads stdin; the quit is pcfg.should_exit set from the "
            "print_guess wrapper (for a loop that polls thread liveness the stand-in's is_alive() is `not should_exit`); thread "
            "timing and stdin are C12's subject",
+           "named-sessions stage: harness/main_driver.py runs pcfg_guesser.main() of a scratch copy of the code tree with print_guess, the "
+           "queue class and the threading module of cracking_session replaced from outside (as above); which names denote the SAME session "
+           "(e.g. 'run' and 'run.sav') is not judged: such pairs are never put into one history",
            "session shards: the model's queue is pop_follow over the pop order the implementation showed (only the order inside groups "
            "of equal probability is taken from the implementation; C15_follow_pop_ok: it meets the heap contract for every order)",
            "translator tie of the session loop: harness/translate_session.py (ast -> Gallina, fail closed; accepted subset and what it does not model in its docstring) and the meaning coq/theories/SessionRt.v gives to `while`, break, try/except OSError, `if limit:` and `x is None`; every collaborator of CrackingSession.run / _save_session (queue, grammar object with quit flag and OMEN counters, save configuration and file, keyboard thread) is an operation on an abstract world: the translated text equals SessionModel.m_run for every world (C12_source_run_is_model), and the property theorems instantiate the world with the collaborators of Session.v (SessionModel.sworld) or constrain it by a contract (quiet_world)"]
@@ -549,6 +557,7 @@ def explore(ctx, rs, om, buckets, sc, dist, cases, samples, max_cuts, two_cases,
 # levels at its own positions and resumed with --load after the OTHER sessions were interrupted.  Every session on its own
 # must emit the uninterrupted run: the restored part of each resumed run is the remainder of ITS interrupted level.
 
+NAMED_RULESETS = (10, 80)       # quick, thorough
 NAME_STEMS = ["night", "run", "crack", "rockyou", "s", "ab", "my.list", "Wörter"]
 
 
@@ -620,13 +629,17 @@ def usable_names(names, probe_dir):
     return ok
 
 
+REF_ERRORS = []
+
+
 def named_reference(code, rs, cap=4000):
     """The uninterrupted run of main() for the ruleset, with the places a quit can be delivered.  None unless every
     pre-terminal of the run has its own probability (then the resumed queue has exactly one order, and each session's
     outputs concatenate to the reference run EXACTLY) and some Markov level of >= 3 strings is followed by a further
     pre-terminal (R18: a quit in the final pre-terminal is not saved)."""
     r = common.run_main_driver(code, ["-r", rs["name"], "-s", "reference run"], cap=cap)
-    if r.get("error") or not r["pops"] or len(r["pop_at"]) != len(r["pops"]):
+    if r.get("error") or not r["pops"] or len(r.get("pop_at", [])) != len(r["pops"]):
+        REF_ERRORS.append(str(r.get("error")))
         return None
     probs = [p[1] for p in r["pops"]]
     if len(set(probs)) != len(probs):
@@ -703,8 +716,17 @@ def judge_history(U, events, results, replay):
                             "what": "named sessions through main(): %s failed: %s" % (ctx_txt, r["error"]), "replay": replay})
                 bad = True
                 break
+            if q is not None and emitted + q not in U["seg_of"]:
+                stats["sessions_not_judged_further"] += 1       # (only after an ordinary pre-terminal stopped elsewhere than scripted)
+                bad = True
+                break
             end = len(stream) if q is None else stop_of(U, emitted + q)
             want, got = stream[emitted:end], r["out"]
+            if q is not None and not U["segs"][U["seg_of"][emitted + q]][2] and emitted + q <= emitted + len(got) <= end \
+                    and emitted + len(got) in U["seg_of"] and got == want[:len(got)]:
+                # the property does not say where a quit inside an ORDINARY pre-terminal takes effect (today: at its end)
+                end = emitted + len(got)
+                want = got
             if got != want:
                 if pending is not None:
                     a, b = pending
@@ -792,7 +814,7 @@ def gen_named_ruleset(rng, idx):
 def named_sessions(ctx, dist, samples):
     """The stage: rulesets x name families x interleaved histories, each history in its own scratch copy of the code tree."""
     vio, evaluations, nontrivial = [], 0, 0
-    nrs, nhist = ctx.scale(10, 80), ctx.scale(4, 8)
+    nrs, nhist = ctx.scale(*NAMED_RULESETS), ctx.scale(4, 8)
     probe = common.scratch()
     pre = common.scratch()
     tries, jobs = 0, []
@@ -1082,6 +1104,10 @@ def run(ctx):
     # translator tie of the session-level bookkeeping (_save_session = sess_quit, the --load prologue = sess_restore)
     import session_tie
     corr.append(session_tie.obligation("session"))
+    # the named-sessions stage must have had its rulesets (an uninterrupted main() that fails is not a reason to skip it)
+    corr.append(("named-sessions:explored", dist.get("named_rulesets", 0) == ctx.scale(*NAMED_RULESETS) and dist.get("named_histories", 0) > 0,
+                 "%d of %d rulesets with a usable uninterrupted run of pcfg_guesser.main(); last failures: %r"
+                 % (dist.get("named_rulesets", 0), ctx.scale(*NAMED_RULESETS), REF_ERRORS[-3:])))
     return {"evaluations": evaluations, "distinct_nontrivial": nontrivial, "rule": rule, "samples": samples,
             "corr": corr, "violations": vio, "dist": dict(dist)}
 
